@@ -90,6 +90,7 @@ func runC18(c *core.Ctx) {
 	if x.fFlag == nil || x.fColor == nil || x.fCount == nil || x.fBuf == nil || x.fQuants == nil || x.fDC == nil {
 		return
 	}
+	runC18DCT(k)
 	t0 := time.Now()
 	lap := func(w string) { c.Analysed("ms_"+w, time.Since(t0).Milliseconds()); t0 = time.Now() }
 	c.Analysed("ms_load", time.Since(c.Start).Milliseconds())
